@@ -82,7 +82,7 @@ CHECKS.update({
         note=RENDER_NOTE, design='5/C03'),
     'C09': dict(
         technique='Coq proof: html.escape output has no < > (and no quotes when asked) for all strings; every text chunk the tokeniser emits is escaped and so cannot start a tag; chunks are emitted verbatim by the marker machine; undiffable elements are one verbatim chunk + extracted-model correspondence + observer (script/style of every view are verbatim those of the inputs; deleted ones inert in a template)',
-        text='Theorems: for all strings html.escape contains neither "<" nor ">" (nor quotes with quote=True), and unescape inverts it; for all trees every word, trailing-whitespace and body-text chunk of the flattened page is escape output, so no text chunk starts a tag; the marker machine emits chunks verbatim (no re-interpretation); script/style/svg/template elements are single opaque chunks. Observer on html_diff_render: every script/style element in any view is verbatim one of the input page, deleted ones sit inside template.wm-diff-deleted-inert, the title diff meta contains no active markup, escaped payloads in text/attributes/title stay text.',
+        text='Theorems: for all strings html.escape contains neither "<" nor ">" (nor quotes with quote=True), and unescape inverts it; for all trees every word, trailing-whitespace and body-text chunk of the flattened page is escape output, so no text chunk starts a tag; the marker machine emits chunks verbatim (no re-interpretation); script/style/svg/template elements are single opaque chunks; the fragment handed to the tokeniser (_diffable_fragment, modelled and tied char for char) writes text nodes of the body escaped, unwraps every source ins/del and keeps all text; every script/style below a deletion marker ends up in an inert template. Observer on html_diff_render: every script/style element in any view is verbatim one of the input page, deleted ones sit inside template.wm-diff-deleted-inert, the title diff meta contains no active markup, escaped payloads in text/attributes/title stay text.',
         note=RENDER_NOTE, design='5/C09'),
     'C15': dict(
         technique='Coq proof: scan invariant of the marker state machine (no block-level tag chunk between an opening and closing marker) for all chunk lists and all contiguous opcodes (single-sided views), combined view = sequence of closed groups and loose tags for all opcode lists (through reconciliation); labelled machines refine the executable model + extracted-model correspondence + document-level observer (no block element inside ins/del.wm-diff in any view)',
